@@ -199,6 +199,29 @@ def meek_rules(rep, prog):
     loops = [(k, v) for k, v in S.loopinfo.items() if v["func"] == q and v["test"] is not None]
     okf = len(loops) == 1 and any(v in (("method", PP_, "copy", (), ()), ("ext", "numpy.array", (PP_,), ()), ("ext", "numpy.copy", (PP_,), ()), ("ext", "copy.deepcopy", (PP_,), ())) for v in loops[0][1]["init"].values()) and T(summ.ret)[0] == "after"
     rep.check("ORIENT.fixpoint", okf, fwhere(f), "works on P.copy() and repeats until a pass orients nothing", "not a fixpoint loop over a copy of P")
+    # the "something was oriented in this pass" flag: reset to False at the start of a pass, and inside the pass it may only be
+    # *raised* (True, or kept) - a fresh boolean per edge forgets the orientations made for earlier edges and ends the loop too early
+    if len(loops) == 1:
+        lw, wl = loops[0]
+        flag = wl["test"][2] if wl["test"][0] == "mu" else None
+        inner = [(k, v) for k, v in S.loopinfo.items() if v["func"] == q and v["test"] is None and flag in v["changed"]]
+        okm, why = False, "flag / pass loop not identified"
+        if flag is not None and len(inner) == 1:
+            li_, il = inner[0]
+            muf = ("mu", li_, flag)
+
+            def only_raised(t):
+                if t == muf or is_const(t, True):
+                    return True
+                if t[0] == "phi":
+                    return only_raised(t[2]) and only_raised(t[3])
+                if t[0] == "bool" and t[1] == "or":
+                    return any(x == muf for x in t[2])
+                return False
+            nx = il["next"][flag]
+            okm = is_const(il["init"].get(flag), False) and only_raised(nx) and nx != muf and wl["next"].get(flag) == ("after", li_, flag)
+            why = "flag is updated as %s (start of pass: %s)" % (fmt(nx)[:80], fmt(il["init"].get(flag, ("const", None))))
+        rep.check("ORIENT.flag", okm, fwhere(f), "the pass flag starts at False and is only ever raised inside a pass", "the repeat-until-stable flag can be lowered again within a pass: " + why)
     inner = [(k, v) for k, v in S.loopinfo.items() if v["func"] == q and v["test"] is None]
     oki = len(inner) == 1 and inner[0][1]["iter"][0] == "call" and inner[0][1]["iter"][1] == U + "undirected_edges"
     rep.check("ORIENT.candidates", oki, fwhere(f), "only undirected edges are candidates for orientation", "candidates are not undirected_edges(P)")
